@@ -202,6 +202,31 @@ func c08RunFaults(r *core.Run) {
 			do(fmt.Sprintf(c.Tmpl, s), c.Name+"/syntax", nil)
 		}
 	}
+	if r.Thorough() {
+		// every fault under every ordered pair of carriers
+		for _, f := range c08Faults {
+			for _, c1 := range c08Carriers[1:] {
+				for _, c2 := range c08Carriers[1:] {
+					do(fmt.Sprintf(c1.Tmpl, fmt.Sprintf(c2.Tmpl, f.Expr)), c1.Name+"+"+c2.Name+"/"+f.Cat, nil)
+				}
+			}
+		}
+		// the arity and expression-reference table of every function: 0..6 plain arguments, and an expression reference at each position
+		for _, name := range ref.FunctionNames() {
+			for n := 0; n <= 6; n++ {
+				args := make([]string, n)
+				for i := range args {
+					args[i] = "a"
+				}
+				do(name+"("+strings.Join(args, ", ")+")", "arity-table", nil)
+				for p := 0; p < n; p++ {
+					args[p] = "&a"
+					do(name+"("+strings.Join(args, ", ")+")", "expref-table", nil)
+					args[p] = "a"
+				}
+			}
+		}
+	}
 	// all ordered pairs of faults: any category present is acceptable
 	for _, f1 := range c08Faults {
 		for _, f2 := range c08Faults {
@@ -222,7 +247,11 @@ func c08RunValid(r *core.Run) {
 	core.EnableTicks(c02TickBudget)
 	all := c01Docs(false)
 	var docs []doc
-	for i := 0; i < len(all); i += 60 {
+	stride, c19Stride, c02Stride := 60, 7, 17
+	if r.Thorough() {
+		stride, c19Stride, c02Stride = 6, 1, 3
+	}
+	for i := 0; i < len(all); i += stride {
 		docs = append(docs, all[i])
 	}
 	docs = append(docs, c08Docs()...)
@@ -231,7 +260,7 @@ func c08RunValid(r *core.Run) {
 		exprs = append(exprs, e.Text)
 	}
 	for i, e := range c19Expressions(false) {
-		if i%7 == 0 {
+		if i%c19Stride == 0 {
 			exprs = append(exprs, e.Text)
 		}
 	}
@@ -239,7 +268,7 @@ func c08RunValid(r *core.Run) {
 		k := 0
 		c02Calls(name, false, func(c c02Call) {
 			k++
-			if k%17 == 0 && c.Doc == "null" && !(strings.HasPrefix(name, "pad_") && strings.Contains(c.Expr, "9223372036854775807")) {
+			if k%c02Stride == 0 && c.Doc == "null" && !(strings.HasPrefix(name, "pad_") && strings.Contains(c.Expr, "9223372036854775807")) {
 				exprs = append(exprs, c.Expr)
 			}
 		})
